@@ -14,6 +14,8 @@ from .. import flow
 from ..cfg import cfg_of
 from ..model import UNKNOWN, AnchorError, Func, UnknownIdiom, attr_chain, local_names, short, unparse, walk_no_nested
 from .c08 import PQS, parse_qs_calls
+from ..escape import TOTAL_CODECS as _TOTAL_CODECS
+from .c09_helpers import LATIN1_TUNNELLED, derives_only_from, is_table_read
 from .c09_helpers import (ASGI_REQ, HEADER_INPUTS, WSGI_REQ, CObj, ConcreteEval, CRaise, ReachingDefs, SiteEscape, Unreadable, assignments,
                           branch_facts, classes_of, effective_members, fact_value, factory_bindings, header_getter_kinds, is_public, kind_text,
                           node_defs, node_of, norm_header_key, split_key, table_of, unguarded_keys)
@@ -88,6 +90,28 @@ class GuardedSiteEscape(SiteEscape):
     the subscript can run inside one expression except the operands themselves,
     so the fact cannot be invalidated unless an operand is a call that mutates
     the mapping - the same assumption the statement-level guard makes."""
+
+    def _exempt(self, func: Func, node, exc: str) -> Optional[str]:
+        r = super()._exempt(func, node, exc)
+        if r is not None or not isinstance(node, ast.Call):
+            return r
+        # `.encode(<total codec>)` of a local every binding of which is the tunnelled table entry OR a constant the
+        # codec can encode (`path = env['PATH_INFO']` ... `if not path: path = '/'`: the `or '/'` default written as a statement)
+        f = node.func
+        if isinstance(f, ast.Attribute) and f.attr == 'encode' and exc == 'builtins.UnicodeEncodeError' and node.args \
+                and isinstance(node.args[0], ast.Constant) and isinstance(node.args[0].value, str) and node.args[0].value.lower() in _TOTAL_CODECS:
+            hit: List[str] = []
+
+            def pred(e):
+                t = is_table_read(func, e, LATIN1_TUNNELLED)
+                if t:
+                    hit.append(t)
+                    return True
+                return isinstance(e, ast.Constant) and isinstance(e.value, str) and _try_encode(e.value, 'iso-8859-1') is not None
+
+            if derives_only_from(func, f.value, pred, use_site=node) and hit:
+                return hit[0]
+        return None
 
     def _expr(self, e, func, selfcls, handlers, out, store=False):
         if e is None:
@@ -639,7 +663,20 @@ def _parse_qs_option_parity(run, p):
     target = p.func(PQS)
     tparams = target.params()
     calls = parse_qs_calls(p)
-    if len(calls) < 2 or {f.cls.qual for f, _c in calls} != {WSGI_REQ, ASGI_REQ}:
+    owners = {f.cls.qual for f, _c in calls}
+    if owners == {WSGI_REQ}:
+        # one shared method of the base class parses for both stacks (`self._params = self._parse_params(qs)` in both
+        # constructors): the ASGI constructor must reach it through a member it inherits
+        fa = p.func(ASGI_REQ + '.__init__')
+        mem = effective_members(p, ASGI_REQ)
+        parsing = {f.qual for f, _c in calls}
+        if any(isinstance(n, ast.Call) and isinstance(n.func, ast.Attribute) and isinstance(n.func.value, ast.Name) and n.func.value.id == 'self'
+               and n.func.attr in mem and mem[n.func.attr].func is not None and mem[n.func.attr].func.qual in parsing for n in walk_no_nested(fa.node)):
+            owners = {WSGI_REQ, ASGI_REQ}
+            for kw in ('keep_blank', 'csv'):
+                run.ok('the ASGI constructor parses the query string through the inherited base-class method that the WSGI constructor uses: '
+                       '%s is whatever that call passes (judged there)' % kw, fa.loc(), 'shared parse_query_string call: %s' % kw)
+    if not calls or owners != {WSGI_REQ, ASGI_REQ}:
         raise AnchorError('expected parse_query_string calls in both request classes, found %d' % len(calls))
     want = {'keep_blank': 'self.options.keep_blank_qs_values', 'csv': 'self.options.auto_parse_qs_csv'}
     rds: Dict[str, ReachingDefs] = {}
@@ -1290,6 +1327,10 @@ def _missing_key_blank(g, t):
     return t == "''" and g == {('except KeyError', True)}
 
 
+def _blank_or_blank(g, t):
+    return t == "''" and g == {(V, False)}
+
+
 def _bytes_decode(g, t):
     return t.startswith(V + '.decode(') and t.endswith(')') and t.count('(') == 1 and not g
 
@@ -1299,6 +1340,8 @@ PIPELINE_TABLED = {
     'path': [('WSGI', _latin1_redecode, 'PEP 3333 tunnels the path bytes through ISO-8859-1, so WSGI re-decodes them as UTF-8; '
                                         'the ASGI server hands over the already decoded str')],
     'query_string': [('WSGI', _missing_key_blank, 'PEP 3333 lets the server omit QUERY_STRING; the ASGI scope key is mandatory'),
+                     ('WSGI', _blank_or_blank, "`v or ''` is the identity on the str-valued environ entry (PEP 3333: CGI variables are str); with "
+                                               "`env.get(K)` it is the missing-key fall-back above"),
                      ('ASGI', _bytes_decode, 'the ASGI scope carries the query string as bytes, the WSGI environ as str '
                                              '(the strictness of the decoding is R2(c): F8)')],
 }
@@ -1420,14 +1463,33 @@ class _Pipeline:
     def _is_store_target(self, t) -> bool:
         return is_self_attr(t, self.attr)
 
+    def _guard_locals(self) -> Set[str]:
+        """Locals that are only ever read inside a branch condition (`strip = options.x and v.endswith('/')` ...
+        `v[:-1] if strip else v`): they name a guard, they are not a stage of the value.  Read where they are used."""
+        par = enclosing_map(self.f.node)
+        loads: Dict[str, List[bool]] = {}
+        for x in walk_no_nested(self.f.node):
+            if isinstance(x, ast.Name) and isinstance(x.ctx, ast.Load):
+                in_test, child, cur = False, x, par.get(id(x))
+                while cur is not None and isinstance(cur, ast.expr):
+                    if isinstance(cur, ast.IfExp) and child is cur.test:
+                        in_test = True
+                        break
+                    child, cur = cur, par.get(id(cur))
+                if not in_test and isinstance(cur, (ast.If, ast.While, ast.Assert)) and child is cur.test:
+                    in_test = True
+                loads.setdefault(x.id, []).append(in_test)
+        return {n for n, where in loads.items() if all(where)}
+
     def _pipeline_vars(self) -> Set[str]:
         asg = assignments(self.f)
         derived: Set[str] = set()
+        guards = self._guard_locals()
         changed = True
         while changed:
             changed = False
             for name, vals in asg.items():
-                if name in derived:
+                if name in derived or name in guards:
                     continue
                 for v in vals:
                     if v is not None and any(self._is_own_raw(x) or (isinstance(x, ast.Name) and x.id in derived)
@@ -1579,6 +1641,15 @@ class _Pipeline:
             self.raw_used.add(self.attr)
             read = ast.copy_location(ast.Subscript(value=e.func.value, slice=e.args[0], ctx=ast.Load()), e)
             return [(frozenset(), read), (frozenset({('except KeyError', True)}), e.args[1])]
+        if isinstance(e, ast.BoolOp) and isinstance(e.op, ast.Or) and len(e.values) >= 2:
+            # `v or C` bound to the value is `if not v: v = C` (the default written as an expression or as a statement)
+            try:
+                first = self.norm(e.values[0], nid)
+            except UnknownIdiom:
+                first = None
+            if first == V:
+                rest = e.values[1] if len(e.values) == 2 else ast.copy_location(ast.BoolOp(op=ast.Or(), values=list(e.values[1:])), e)
+                return [(frozenset(), e.values[0])] + [(frozenset({(V, False)}) | g, x) for g, x in self._alternatives(rest, nid)]
         return [(frozenset(), e)]
 
     def _simple(self, e) -> bool:
@@ -1606,9 +1677,14 @@ class _Pipeline:
                 isinstance(x, ast.UnaryOp) and isinstance(x.op, ast.USub) and isinstance(x.operand, ast.Constant)) for x in parts)
         return False
 
-    def _atoms(self, e, truth, nid) -> Set[Tuple[str, bool]]:
+    def _atoms(self, e, truth, nid, depth=0) -> Set[Tuple[str, bool]]:
         while isinstance(e, ast.UnaryOp) and isinstance(e.op, ast.Not):
             e, truth = e.operand, not truth
+        if isinstance(e, ast.Name) and e.id not in self.vars and depth < 4:
+            # a local that names a condition: its atoms are those of the expression it was bound to
+            ds = self.rd.at(nid, e.id)
+            if len(ds) == 1 and ds[0].how == 'assign' and ds[0].value is not None and isinstance(ds[0].value, (ast.BoolOp, ast.Compare, ast.UnaryOp, ast.Call, ast.Attribute)):
+                return self._atoms(ds[0].value, truth, _stmt_node(self.cfg, ds[0].stmt), depth + 1)
         if isinstance(e, ast.BoolOp) and ((isinstance(e.op, ast.And) and truth) or (isinstance(e.op, ast.Or) and not truth)):
             out: Set[Tuple[str, bool]] = set()
             for v in e.values:
@@ -1751,7 +1827,7 @@ def _step_text(g, t) -> str:
 
 _SYMBOL = re.compile(r"<v>|<raw:[^>]+>|options\.\w+|self(?:\.\w+)+|except [\w.]+")
 # guard atoms whose normal form is canonical: two of them that differ textually differ in meaning
-_KNOWN_ATOM = re.compile(r"len\(<v>\) (?:==|!=|<|<=|>|>=) \d+|<v>\.(?:endswith|startswith)\('[^']*'\)|options\.\w+|self(?:\.\w+)+|<v>\.isascii\(\)|except [\w.]+")
+_KNOWN_ATOM = re.compile(r"<v>|len\(<v>\) (?:==|!=|<|<=|>|>=) \d+|<v>\.(?:endswith|startswith)\('[^']*'\)|options\.\w+|self(?:\.\w+)+|<v>\.isascii\(\)|except [\w.]+")
 
 
 def _symbols(texts) -> Set[str]:
@@ -3376,8 +3452,19 @@ def _stream_read_sites(p, f: Func):
     derives from the block size (mentions _STREAM_BLOCK_SIZE, or - in the WSGI iterator - the stored constructor argument)."""
     parent = enclosing_map(f.node)
     out = []
+    asg = assignments(f)
+
+    def is_read(fn):
+        if isinstance(fn, ast.Attribute):
+            return fn.attr == 'read'
+        # a local bound once to the bound method (`read = stream.read` hoisted out of the loop)
+        if isinstance(fn, ast.Name) and fn.id not in f.params():
+            vals = asg.get(fn.id, [])
+            return len(vals) == 1 and isinstance(vals[0], ast.Attribute) and vals[0].attr == 'read'
+        return False
+
     for c in walk_no_nested(f.node):
-        if not (isinstance(c, ast.Call) and isinstance(c.func, ast.Attribute) and c.func.attr == 'read' and len(c.args) == 1 and not c.keywords):
+        if not (isinstance(c, ast.Call) and is_read(c.func) and len(c.args) == 1 and not c.keywords):
             continue
         cur, holder = parent.get(id(c)), c
         while isinstance(cur, ast.Await):
@@ -3400,7 +3487,17 @@ def _read_until_empty(run, p, f: Func, dname, call, loop, side: str):
     """Judge one read site: no way out of the read loop is open after a NON-EMPTY read."""
     if dname is None:
         raise UnknownIdiom('%s: the result of `%s` is not bound to a local' % (f.qual, short(call, 60)))
-    cfg = cfg_of(f, p)
+    # a loop steered by a pure control flag (`more = True; while more: ... if data == b'': more = False`): on the
+    # flag-sensitive graph the copy of the loop test that is left is dominated by the test that cleared the flag
+    flaggy = set()
+    if isinstance(loop, ast.While):
+        for x in walk_self(loop.test):
+            if isinstance(x, ast.Name):
+                vals = assignments(f).get(x.id, [])
+                if vals and all(isinstance(v, ast.Constant) and isinstance(v.value, bool) for v in vals):
+                    flaggy.add(x.id)
+    cfg = cfg_of(f, p, refined=bool(flaggy))
+    flags = set(getattr(cfg, 'flag_refined', None) or ()) & flaggy
     run.use_cfg(cfg)
     scope = loop if loop is not None else f.node
     inside = {id(x) for x in ast.walk(scope)}
@@ -3423,10 +3520,16 @@ def _read_until_empty(run, p, f: Func, dname, call, loop, side: str):
     if loop is not None:
         for x in walk_no_nested(loop):
             if (isinstance(x, ast.Break) and own_loop(x) is loop) or isinstance(x, ast.Return):
-                exits.append((x, None))
+                for nid in ([i for i in cfg.nodes_for(x) if not cfg.node(i).copy] or cfg.nodes_for(x))[:(None if flags else 1)]:
+                    exits.append((x, None, nid))
         if isinstance(loop, ast.While):
             if not (isinstance(loop.test, ast.Constant) and loop.test.value):
-                exits.append((loop, [(loop.test, False)]))
+                if flags:
+                    for h in cfg.nodes_for(loop):
+                        if cfg.node(h).kind == 'test' and cfg.node(h).ast is loop.test and flow.edges_out(cfg, h, 'F'):
+                            exits.append((loop, [(t, tr) for t, tr in branch_facts(cfg, h) if id(t) in inside] + [(loop.test, False)], h))
+                else:
+                    exits.append((loop, [(loop.test, False)], None))
         else:
             raise UnknownIdiom('%s: `%s` inside a for loop' % (f.qual, short(call, 60)))
     else:
@@ -3434,17 +3537,21 @@ def _read_until_empty(run, p, f: Func, dname, call, loop, side: str):
             raise UnknownIdiom('%s: `%s` is neither inside a loop nor in an iterator __next__' % (f.qual, short(call, 60)))
         for x in walk_no_nested(f.node):
             if isinstance(x, ast.Raise) and x.exc is not None and short(x.exc.func if isinstance(x.exc, ast.Call) else x.exc) in ('StopIteration', 'StopAsyncIteration'):
-                exits.append((x, None))
+                for nid in ([i for i in cfg.nodes_for(x) if not cfg.node(i).copy] or cfg.nodes_for(x))[:1]:
+                    exits.append((x, None, nid))
     if not exits:
         raise UnknownIdiom('%s: no way out of the loop around `%s` was found' % (f.qual, short(call, 60)))
     what = ('%s: the loop over `%s` ends only on an EMPTY read (a short read is not the end of a pipe / socket / decompressor stream)'
             % (side, short(call, 60)))
-    for x, facts in exits:
+    def flag_test(t):
+        names = {y.id for y in walk_self(t) if isinstance(y, ast.Name)}
+        return bool(names) and names <= flags
+
+    for x, facts, nid in exits:
         if facts is None:
-            nids = [i for i in cfg.nodes_for(x) if not cfg.node(i).copy] or cfg.nodes_for(x)
-            if not nids:
-                continue        # dead code
-            facts = [(t, tr) for t, tr in branch_facts(cfg, nids[0]) if id(t) in inside]
+            facts = [(t, tr) for t, tr in branch_facts(cfg, nid) if id(t) in inside]
+        # (a test of nothing but control flags is decided by the graph copy the exit sits in)
+        facts = [(t, tr) for t, tr in facts if not flag_test(t)]
         if not facts:
             raise UnknownIdiom('%s: `%s` leaves the read loop unconditionally' % (f.qual, short(x, 40)))
         guards = [(t, tr) for t, tr in facts if not isinstance(t, ast.Constant)]
